@@ -186,6 +186,20 @@ func genDir(tape *sim.Tape, t *Tree, dir string, depth int, rich bool, counter *
 		data, _ := Content(tape, extOf(name), true)
 		t.Entries = append(t.Entries, Entry{Path: dir + "/" + name, Kind: KFile, Data: data, Mode: []os.FileMode{0o644, 0o644, 0o600, 0o755}[tape.Draw(4)]})
 	}
+	if depth > 0 && !strings.Contains(dir, "/") && tape.Draw(12) == 0 {
+		// a chain of several dozen nested directories with one file at the bottom (node_modules
+		// style): "every selected file" has no depth limit
+		p := dir + "/deep"
+		t.Entries = append(t.Entries, Entry{Path: p, Kind: KDir})
+		for l, n := 0, 34+tape.Draw(12); l < n; l++ {
+			p += "/" + string(rune('a'+l%26))
+			t.Entries = append(t.Entries, Entry{Path: p, Kind: KDir})
+		}
+		*counter++
+		name := fileName(tape, *counter, minifiableExts)
+		data, _ := Content(tape, extOf(name), true)
+		t.Entries = append(t.Entries, Entry{Path: p + "/" + name, Kind: KFile, Data: data, Mode: 0o644})
+	}
 	if depth > 0 && tape.Draw(2) == 0 {
 		*counter++
 		sub := []string{"sub", "lib", ".hid", "d"}[tape.Draw(4)] + fmt.Sprint(*counter)
